@@ -39,6 +39,10 @@ type Recorder struct {
 	SlowSnapshot time.Duration
 	// SlowRecover makes RecoverFromSnapshot take this long
 	SlowRecover time.Duration
+	// SlowLookup makes every 16th Lookup take this long (a read still inside the user
+	// state machine when its replica is stopped, restored or closed)
+	SlowLookup  time.Duration
+	lookupCount int64
 	busy         map[string]int // replica name -> snapshot related calls in progress
 	// ImagesBy: replica name -> applied index of every image handed to SaveSnapshot, in order
 	ImagesBy map[string][]uint64
@@ -334,6 +338,9 @@ func (c *kvCore) lookup(q interface{}) (interface{}, error) {
 	c.enterShared("Lookup", &c.inLookup)
 	defer atomic.AddInt32(&c.inLookup, -1)
 	c.widen()
+	if c.rec.SlowLookup > 0 && atomic.AddInt64(&c.rec.lookupCount, 1)%16 == 0 {
+		time.Sleep(c.rec.SlowLookup)
+	}
 	key, _ := q.(string)
 	c.mu.Lock()
 	defer c.mu.Unlock()
